@@ -34,7 +34,8 @@ extern rt_scenario rt_scen;
 /* ---- configuration ---------------------------------------------------------------- */
 int rt_mode_b (void);                 /* 1 = serialized schedule fuzzer, 0 = free running */
 int rt_tier_thorough (void);
-int rt_self (void);                   /* worker id of the calling thread, -1 outside workers */
+int rt_self (void);
+void rt_adopt (int tid);              /* a pthread created by worker tid takes over its slot while the worker is blocked in pthread_join (thread churn) */                   /* worker id of the calling thread, -1 outside workers */
 void rt_wake_delay_us (int tid, unsigned us);  /* Mode A: thread tid sleeps this long after every futex wake-up */
 uint64_t rt_round (void);             /* current round number */
 long rt_param (const char *name, long dflt);  /* --param name=value */
